@@ -58,7 +58,7 @@ class C07(Check):
             "signature of the result differs from the recipe's (some rewrite or folding happened); distinct by recipe.")
     assumptions = ["mpmath principal branches are the reference (exp(y*log x), arg in (-pi, pi])",
                    "library exceptions decline a case; a crash is a violation"]
-    tiers = {"quick": {"examples": 6000}, "thorough": {"examples": 400000}}
+    tiers = {"quick": {"examples": 24000}, "thorough": {"examples": 600000}}
 
     def strategy(self, tier):
         num = gen.weighted([(6, gen.integer()), (4, gen.rational()), (2, gen.gaussian()),
@@ -75,23 +75,45 @@ class C07(Check):
                              st.builds(lambda xs: ["add_vec", ["list"] + xs], st.lists(ch, min_size=2, max_size=4)))
         t = gen.tree(leaves, unary=("neg", "sqrt", "cbrt"), binary=("add", "sub", "mul", "div", "pow"),
                      max_leaves=10 if tier == "quick" else 14, special=special)
-        return st.fixed_dictionaries({"e": t, "envs": gen.envs(n=3)})
+        # number (op) number over every ordered pair of kinds: the double-dispatch tables
+        # (pow/rpow, div/rdiv ...) have one entry per pair and each is reached only this way
+        snum = st.one_of(st.integers(-5, 5).map(lambda n: ["integer", n]),
+                         st.builds(gen._rat, st.integers(-9, 9), st.integers(2, 5)),
+                         gen.gaussian(), gen.real_double(), gen.complex_double(),
+                         st.sampled_from([2.0, -2.0, 3.0, 0.5, -0.5, 1.5, -1.5]).map(lambda f: ["real_double", f]))
+        pair = st.builds(lambda o, a, b: [o, a, b], st.sampled_from(["pow", "pow", "div", "mul", "add", "sub"]), snum, snum)
+        pair2 = st.builds(lambda o, p, c: [o, p, c], st.sampled_from(["mul", "add", "pow"]), pair, st.one_of(snum, gen.sym()))
+        return st.fixed_dictionaries({"e": st.one_of(t, t, t, pair, pair2), "envs": gen.envs(n=3)})
 
     def judge(self, case):
         rec = case["e"]
+        # reference first: recipes with an astronomically large/small intermediate power are
+        # neither judged nor sent to the library (resource exhaustion is not a property violation)
+        refs = []
+        hasf = on.has_float(rec)
+        mag = 100 if hasf else 300
+        for env in case["envs"]:
+            try:
+                refs.append(on.stable_value(rec, env, cut_guard=True, mag=mag))
+            except Unjudgeable as u:
+                refs.append(u)
+        if any(isinstance(r, Unjudgeable) and r.reason.startswith("overflow") for r in refs) \
+                or on.resource_blocked(rec, case["envs"][0], mag):
+            self.skip("ref:overflow")
+            return
         res = self.run([rec])[0]
         if is_exc(res):
-            self.skip("declined:" + res["exc"])
+            if res["exc"] == "VerifAssertFailure":
+                self.skip("assert_seen")
+            else:
+                self.skip("declined:" + res["exc"])
             return
         got = B(res)
-        hasf = on.has_float(rec)
         judged = 0
-        for env in case["envs"]:
+        for env, ref in zip(case["envs"], refs):
             self.count()
-            try:
-                ref = on.stable_value(rec, env, cut_guard=True)
-            except Unjudgeable as u:
-                self.skip("ref:" + u.reason.split(":")[0])
+            if isinstance(ref, Unjudgeable):
+                self.skip("ref:" + ref.reason.split(":")[0])
                 # a zoo/nan result is fine when the reference has a pole; nothing to compare
                 continue
             if got[0] in ("Infty", "NaN"):
@@ -100,14 +122,14 @@ class C07(Check):
             try:
                 val = on.stable_value(got, env, cut_guard=True)
             except Unjudgeable as u:
-                if u.reason.startswith(("pole", "non_finite", "overflow")):
+                if u.reason.startswith(("pole", "non_finite")):
                     raise Violation("result %s is singular (%s) where the recipe has the finite value %s at %s"
                                     % (got, u.reason, ref, env), {"recipe": rec, "result": got, "env": env})
                 self.skip("res:" + u.reason.split(":")[0])
                 continue
             try:
                 if hasf:
-                    kap = on.float_kappa(rec, env, cut_guard=True)
+                    kap = on.float_kappa(rec, env, cut_guard=True, mag=mag)
                     tol = float(64 * 2.0 ** -53 * kap)
                 else:
                     tol = 1e-25
